@@ -125,6 +125,8 @@ ReqCertC04(a, o) ==
                                    BcSeq(p.isCa.k = "Ca", p.isCa.k = "Ca" /\ p.isCa.pl.k = "some", p.isCa.pl.n)>>,
   <<"C04.custom_content_verbatim",    \A i \in DOMAIN p.custom :
                                  Has(x, p.custom[i].oid) => Ext(x, p.custom[i].oid).raw = p.custom[i].content>>,
+  (* "time values in the exact RFC 5280 forms": seen from the bytes alone (C09 relates them to the input) *)
+  <<"C04.validity_in_rfc5280_time_forms", ReqTimeShape(o.nb) /\ ReqTimeShape(o.na) /\ ReqTimeFormOfEncoded(o.nb) /\ ReqTimeFormOfEncoded(o.na)>>,
   <<"C04.no_trailing_bytes",    ~o.trailing>>
   }
 
